@@ -1,15 +1,15 @@
-\* vacuity witness: the wrong design "wait while len(queue) > capacity" must violate Bounded
+\* reachability witness (must be VIOLATED): the callable returns from a sender-only responder at the exactly full queue
 INIT XInit
 NEXT XNext
 CONSTANTS
-  MaxQs = {1, 2}
-  NMsg = 3
+  MaxQs = {2}
+  NMsg = 2
   DiscChoices = {TRUE}
-  GeCmp = FALSE
+  GeCmp = TRUE
   AwaitStop = TRUE
   NotifyPop = TRUE
   ReleaseOnEnd = TRUE
-  Faults = TRUE
+  Faults = FALSE
   StopAfterSend = TRUE
   CleanupOnDisc = TRUE
   MaxSendFail = 1
@@ -17,4 +17,4 @@ CONSTANTS
   MaxOps = 2
   MaxCancel = 0
   Depth = 0
-INVARIANT Bounded
+INVARIANT ReturnedFromFullQueue
